@@ -99,6 +99,37 @@ pub fn gen(rng: &mut Prng, plan: &mut Plan) {
     let nsteps = rng.range(1, 5);
     for _ in 0..nsteps {
         let kind = rng.below(4).min(2); // 0 sqrt, 1 cbrt, 2 nth (twice as likely)
+        // 'small root sweep': the roots 1, 2 and 3 at *every* degree up to 30 000 (x up to 60 kbit): x = 2^n, 3^n, 4^n and
+        // their neighbours, and the smallest value with the bit length of 3^n. The degree is swept by the run index
+        // (a permutation of 1..=30000), not drawn, so that a degree-specific slip (a rational approximation of log2 3,
+        // a table, an overflow at n * constant) is met by enumeration; one plan in 3, single step.
+        if kind == 2 && plan.steps.is_empty() && plan.index % 3 == 2 {
+            let n = 1 + ((plan.index / 3).wrapping_mul(7919).wrapping_add(plan.seed) % 30_000) as u32;
+            let three = RefNat::from_u128(3).pow(n);
+            let x = match rng.below(8) {
+                0 | 1 => three.sub(&RefNat::one()).unwrap(),
+                2 => three,
+                3 => three.add_small(1),
+                4 => RefNat::one().shl(three.bits() - 1),
+                5 => RefNat::one().shl(n as u64).sub(&RefNat::from_u128(rng.below(2) as u128)).unwrap(),
+                6 => RefNat::one().shl(2 * n as u64).sub(&RefNat::from_u128(rng.below(2) as u128)).unwrap(),
+                _ => RefNat::one().shl(three.bits()).sub(&RefNat::one()).unwrap(),
+            };
+            let api = rng.below(2);
+            let neg = api == 1 && rng.chance(1, 3);
+            plan.steps.push(
+                Step::new("root")
+                    .i("api", api as i128)
+                    .i("neg", neg as i128)
+                    .i("kind", 2)
+                    .i("n", n as i128)
+                    .i("gm", hook::GUESS_IDENTITY as i128)
+                    .i("gp", 0)
+                    .s("regime", "small_root_sweep")
+                    .l32("x", &x.0),
+            );
+            break;
+        }
         // 'deep degree' regime: n in 1500..4600 with a root of 2..14 bits (x up to 60 kbit). This is where the
         // descending Newton loop converges linearly (one unit per round while the estimate is below n), i.e. the
         // only place where thousands of fix-point rounds happen. One call costs up to ~1.5 s in the debug harness (the replay watchdog is 6 s), so only one plan in
@@ -348,6 +379,11 @@ pub fn exec(plan: &Plan) -> RunResult {
             if iters > 8 * deg as u64 + 128 {
                 res.reach("iteration_count_above_8n_plus_128");
             }
+        }
+        if s.str("regime") == "small_root_sweep" {
+            res.reach("small_root_sweep_call");
+            res.nontrivial = true;
+            res.cover.insert(fnv(format!("sweep|{}", deg / 128).as_bytes()));
         }
         if s.str("regime") == "deep_degree" {
             res.reach("deep_degree_call");
